@@ -201,6 +201,31 @@ func (it *Interp) modelPrefix(s *State, name string, args []AV) AV {
 			return boolOf(strings.HasSuffix(a, b))
 		}
 	}
+	// prefix test against a literal with a partially known subject: a known byte
+	// that differs refutes it (the zero padding of a fixed-size prefix buffer)
+	if okb && (name == "bytes.HasPrefix" || name == "strings.HasPrefix") {
+		if sl, ok := args[0].(SliceV); ok && !sl.Nil && !sl.Top {
+			if arr, ok := s.heap[sl.Arr].(ArrV); ok && arr.Elems != nil {
+				if sl.Hi-sl.Lo < len(b) {
+					return boolOf(false)
+				}
+				all := true
+				for i := 0; i < len(b); i++ {
+					iv, ok := arr.Elems[sl.Lo+i].(IntV)
+					if ok && iv.Known {
+						if byte(iv.V) != b[i] {
+							return boolOf(false)
+						}
+					} else {
+						all = false
+					}
+				}
+				if all {
+					return boolOf(true)
+				}
+			}
+		}
+	}
 	// length-based refutation
 	la, oka2 := it.sliceLen(args[0])
 	lb, okb2 := it.sliceLen(args[1])
